@@ -8,7 +8,7 @@ import (
 	"sort"
 )
 
-func writeEvidence(prop, tier string, seed uint64, pc propCfg, results []result, nviol int, knownHit map[string]int, wallS, buildS float64, workers int) {
+func writeEvidence(prop, tier string, seed uint64, pc propCfg, results []result, aggs []aggregate, nviol int, knownHit map[string]int, wallS, buildS float64, workers int) {
 	distinct := map[string]bool{}
 	states := map[string]bool{}
 	faults := map[string]int{}
@@ -20,7 +20,11 @@ func writeEvidence(prop, tier string, seed uint64, pc propCfg, results []result,
 	for _, r := range results {
 		nontrivial := r.Steps > 0 || r.Evals > 0
 		if nontrivial {
-			distinct[r.Shape+"/"+r.StateSig] = true
+			sh := r.Shape
+			if len(sh) > 16 {
+				sh = sh[:16]
+			}
+			distinct[sh+"/"+r.StateSig] = true
 		}
 		if r.StateSig != "" {
 			states[r.StateSig] = true
@@ -61,6 +65,45 @@ func writeEvidence(prop, tier string, seed uint64, pc propCfg, results []result,
 			samples = append(samples, map[string]any{"run": r.Run, "seed": r.Seed, "cfg": r.Cfg, "decisions": tr, "outcome": r.Sample, "steps": r.Steps})
 		}
 	}
+	nruns := len(results)
+	maxRun := 0
+	for _, r := range results {
+		if r.Run > maxRun {
+			maxRun = r.Run
+		}
+	}
+	for _, a := range aggs {
+		nruns += a.Runs
+		evals += a.Evals
+		steps += a.Steps
+		simMS += a.SimMS
+		trunc += a.Trunc
+		for k, v := range a.Faults {
+			faults[k] += v
+		}
+		for k, v := range a.Probes {
+			probes[k] += v
+		}
+		for k, m := range a.Cfg {
+			if cfgHist[k] == nil {
+				cfgHist[k] = map[string]int{}
+			}
+			for sv, n := range m {
+				if len(cfgHist[k]) < 12 || cfgHist[k][sv] > 0 {
+					cfgHist[k][sv] += n
+				}
+			}
+		}
+		for _, sh := range a.Shapes {
+			distinct[sh] = true
+		}
+		for _, st := range a.States {
+			states[st] = true
+		}
+		if a.MaxRun > maxRun {
+			maxRun = a.MaxRun
+		}
+	}
 	if len(samples) == 0 {
 		samples = append(samples, map[string]any{"note": "no sample recorded"})
 	}
@@ -73,9 +116,9 @@ func writeEvidence(prop, tier string, seed uint64, pc propCfg, results []result,
 		"distinct_nontrivial": len(distinct),
 		"rule":                pc.Rule + " A run is non-trivial if the scheduler released at least one parked operation (or the scenario evaluated at least one enumerated case); runs are distinct by the SHA-256 of their decision log (every released operation with its task, descriptor and injected fault, plus workload notes) after random identifiers (token ids, UUIDs, serials) have been replaced by their order of first appearance, so two runs differing only in random identifiers count once.",
 		"samples":             samples,
-		"runs":                len(results),
-		"runs_per_hour":       int(float64(len(results)) / searchS * 3600),
-		"seeds":               fmt.Sprintf("VERIF_SEED=%d, run indices 0..%d (run seed = mix(VERIF_SEED, index))", seed, len(results)-1),
+		"runs":                nruns,
+		"runs_per_hour":       int(float64(nruns) / searchS * 3600),
+		"seeds":               fmt.Sprintf("VERIF_SEED=%d, run indices 0..%d (run seed = mix(VERIF_SEED, index))", seed, maxRun),
 		"scheduler_steps":     steps,
 		"simulated_time_s":    float64(simMS) / 1000,
 		"faults_fired":        faults,
@@ -114,5 +157,5 @@ func writeEvidence(prop, tier string, seed uint64, pc propCfg, results []result,
 	}
 	sort.Strings(keys)
 	fmt.Printf("%s %s: %d runs (%d evaluations, %d distinct), %d steps, %.0fs simulated, faults %v, %d truncated, %.0fs wall\n",
-		prop, tier, len(results), evals, len(distinct), steps, float64(simMS)/1000, faults, trunc, wallS)
+		prop, tier, nruns, evals, len(distinct), steps, float64(simMS)/1000, faults, trunc, wallS)
 }
